@@ -155,14 +155,14 @@ GoExitMenu(c, sg, rows) ==
 \* edits of an open position, in the order of a menu; the user picks entry k (0 = no edit) when the hook runs
 EditSeq(S, hook) ==
   LET c == S.cur sg == Sg(S) a == SAbs(S.q) IN
-  (IF EditLevel >= 1 /\ hook = "update" THEN << <<"liq", None>>, <<"sl", Decl(Rows1(a, c - 8 * sg))>> >> ELSE <<>>)
+  (IF EditLevel >= 1 /\ hook = "update" THEN << <<"liq", None>>, <<"sl", Decl(Rows1(a, c - 8 * sg))>>, <<"tp", Decl(<<>>)>> >> ELSE <<>>)   \* (tp = []: withdrawn)
   \o (IF EditLevel >= 1 /\ hook = "open" /\ ~S.d.sl.has /\ ~S.d.tp.has THEN << <<"both", Decl(Rows1(a, c - 6 * sg))>> >> ELSE <<>>)
-  \o (IF EditLevel >= 1 /\ hook = "red" THEN << <<"sl", Decl(Rows1(a, c - 4 * sg))>> >> ELSE <<>>)
+  \o (IF EditLevel >= 1 /\ hook = "red" THEN << <<"sl", Decl(Rows1(a, c - 4 * sg))>>, <<"sl", Decl(<<>>)>> >> ELSE <<>>)
   \o (IF EditLevel >= 2 /\ hook = "update"
       THEN << <<"sl", Decl(Rows1(a, c - 2 * sg))>>, <<"tp", IF a >= 2 THEN Decl(Rows2(1, c + 4 * sg, a - 1, c + 8 * sg)) ELSE Decl(Rows1(a, c + 8 * sg))>> >> ELSE <<>>)
-  \o (IF EditLevel >= 2 /\ hook = "inc" THEN << <<"tp", Decl(Rows1(a, c + 6 * sg))>>, <<"sl", Decl(Rows1(a, c - 6 * sg))>> >> ELSE <<>>)
+  \o (IF EditLevel >= 2 /\ hook = "inc" THEN << <<"tp", Decl(Rows1(a, c + 6 * sg))>>, <<"sl", Decl(Rows1(a, c - 6 * sg))>>, <<"tp", Decl(<<>>)>> >> ELSE <<>>)
   \o (IF EditLevel >= 2 /\ hook = "red" THEN << <<"tp", Decl(Rows1(a, c + 6 * sg))>> >> ELSE <<>>)
-MaxEdit == IF EditLevel = 0 THEN 0 ELSE IF EditLevel = 1 THEN 2 ELSE 4
+MaxEdit == IF EditLevel = 0 THEN 0 ELSE IF EditLevel = 1 THEN 3 ELSE 5
 PickEdit(S, hook, k) == LET m == EditSeq(S, hook) IN IF k = 0 \/ k > Len(m) THEN <<"none", None>> ELSE m[k]
 PnlPositive(S) == IF Long(S) THEN RLe(S.en, RI(S.cur)) /\ S.en # RI(S.cur) ELSE RGe(S.en, RI(S.cur)) /\ S.en # RI(S.cur)
 ApplyEdit(S0, ed) ==
@@ -175,8 +175,10 @@ ApplyEdit(S0, ed) ==
          [] ed[1] = "sl" -> [S EXCEPT !.d.sl = ed[2]]
          [] ed[1] = "tp" -> [S EXCEPT !.d.tp = ed[2]]
          [] ed[1] = "both" -> [S EXCEPT !.d.sl = ed[2], !.d.tp = Decl(Rows1(SAbs(S.q), S.cur + 6 * Sg(S)))]
-         [] ed[1] = "liq" -> IF PnlPositive(S) THEN [S EXCEPT !.d.tp = Decl(Rows1(S.q, S.cur))]      \* liquidate(): (position.qty, price)
-                             ELSE [S EXCEPT !.d.sl = Decl(Rows1(S.q, S.cur))]             \* - the quantity is SIGNED
+         \* liquidate(): (position.qty, price) - the quantity is SIGNED; 119e8022: the submitted copy is forgotten first, so the
+         \* declaration always counts as modified
+         [] ed[1] = "liq" -> IF PnlPositive(S) THEN [S EXCEPT !.d.tp = Decl(Rows1(S.q, S.cur)), !.u.tp = None]
+                             ELSE [S EXCEPT !.d.sl = Decl(Rows1(S.q, S.cur)), !.u.sl = None]
 
 \* ---------------------------------------------------------------- fills
 \* ClosedTrade.qty / entry_price / exit_price / pnl from the recorded rows (fee 0)
